@@ -160,6 +160,10 @@ impl HistoryModel {
         // the same with blank leaves 1 and 5 under re-keyed parents, removed from the other half
         let mut s13 = s12.clone();
         s13.extend([c(6, vec![Remove(1)]), c(2, vec![Remove(5)])]);
+        // eight members again, two of them re-added without a path: unmerged leaves 3 and 6 under
+        // parents that other members filled
+        let mut s14 = s12.clone();
+        s14.extend([c(0, vec![Remove(3)]), c(5, vec![Remove(6)]), c(1, vec![Add(3), Add(6)])]);
         let all: Vec<(&str, Vec<Act>)> = vec![
             ("S0", vec![]),
             ("S1", s1),
@@ -175,6 +179,7 @@ impl HistoryModel {
             ("S11", s11),
             ("S12", s12),
             ("S13", s13),
+            ("S14", s14),
         ];
         let mut out = vec![];
         for (name, acts) in all {
@@ -182,7 +187,7 @@ impl HistoryModel {
                 continue;
             }
             // the 8-member seeds are used only where a model asks for them by name
-            if matches!(name, "S12" | "S13") && (self.seeds.is_empty() || self.n_parties < 8) {
+            if matches!(name, "S12" | "S13" | "S14") && (self.seeds.is_empty() || self.n_parties < 8) {
                 continue;
             }
             if let Some(s) = self.script(cfg, name, acts, ctx) {
